@@ -1949,3 +1949,258 @@ Proof.
       destruct (unquoted (cSLASH :: d :: r')) as [u s']. destruct (opener_in (tl u)); discriminate. }
   rewrite Ep, E2, E3 in Hrej. destruct (unquoted (c :: r)) as [u s']. destruct (opener_in (tl u)); discriminate.
 Qed.
+
+(* ================================================================ the fuel of the model is sufficient *)
+Definition nonerr (its : list token) : nat := length (filter (fun t => negb (is_TError t)) its).
+Definition lrest (l : lexer) : nat := match state l with SDone => O | _ => length (after (cu l)) end.
+(* all tokens still to come, and the non-error tokens still to come *)
+Definition nu (l : lexer) : nat := (length (items l) + match state l with SDone => 0 | _ => length (after (cu l)) + 1 end)%nat.
+Definition nu2 (l : lexer) : nat := (nonerr (items l) + lrest l)%nat.
+Definition QI (l : lexer) : Prop :=
+  (state l = SGround \/ state l = SDone) /\ (length (items l) <= maxErrors)%nat /\ (nonerr (items l) <= 1)%nat.
+
+Lemma nonerr_app a b : nonerr (a ++ b) = (nonerr a + nonerr b)%nat.
+Proof. unfold nonerr. rewrite filter_app, app_length. reflexivity. Qed.
+Lemma nonerr_le a : (nonerr a <= length a)%nat.
+Proof. unfold nonerr. induction a as [|x a IH]; [reflexivity|]. cbn [filter]. destruct (negb (is_TError x)); cbn [length]; lia. Qed.
+
+Definition grows (l l' : lexer) (k : nat) : Prop :=   (* at most one more item, k of them non-error *)
+  (length (items l') <= length (items l) + 1)%nat /\ (nonerr (items l') <= nonerr (items l) + k)%nat /\
+  ((length (items l) <= maxErrors)%nat -> (length (items l') <= maxErrors)%nat) /\
+  (items l <> [] -> items l' <> []).
+
+Lemma emitText_grows l c u : grows l (emitText l c u) (match c with TError => 0 | _ => 1 end) /\ items (emitText l c u) <> [].
+Proof.
+  unfold grows, emitText. cbn [items]. destruct (Nat.ltb_spec (length (items l)) maxErrors) as [H|H].
+  - rewrite app_length, nonerr_app. cbn [length]. split; [|destruct (items l); discriminate].
+    split; [lia|]. split; [|split; [intros _; unfold maxErrors in *; lia|intros _; destruct (items l); discriminate]].
+    unfold nonerr at 2. cbn [filter is_TError t_code]. destruct c; cbn; lia.
+  - split; [split; [lia|split; [lia|split; [auto|auto]]]|]. unfold maxErrors in H. destruct (items l); [cbn in H; lia|discriminate].
+Qed.
+
+Lemma ErrorfAt_count l ln cl kind subj : let l' := ErrorfAt l ln cl kind subj in
+  grows l l' 0 /\ items l' <> [] /\ (length (after (cu l')) <= length (after (cu l)))%nat /\ state l' = state l.
+Proof.
+  cbv zeta. destruct (emitText_grows l TError (rev (tokrev (cu l)))) as [G N]. fold (emit l TError) in G, N.
+  unfold ErrorfAt. destruct (Nat.eqb (errcnt (emit l TError)) maxErrors); [|destruct (Nat.eqb (errcnt (emit l TError)) (S maxErrors))];
+    (split; [exact G|split; [exact N|split; [cbn; lia|reflexivity]]]).
+Qed.
+
+Lemma next_after k c k' : next k = (c, k') -> (length (after k') <= length (after k))%nat /\
+  (c <> EOFR -> (length (after k') + 1 <= length (after k))%nat).
+Proof.
+  unfold next. destruct (after k) as [|x r] eqn:Ha; intro H; injection H as <- <-.
+  - cbn [set_width after]. rewrite Ha. split; [lia|congruence].
+  - destruct (advance_fields x r k 1 Ha) as (_ & -> & _). cbn [length]. split; lia.
+Qed.
+
+(* lexQString, whatever the text: either a string comes out and at least the closing quote was consumed, or the
+   lexer is done *)
+Definition qcount (l l' : lexer) : Prop :=
+  (state l' = SGround /\ items l' <> [] /\
+   (length (items l') + length (after (cu l')) <= length (items l) + length (after (cu l)))%nat /\
+   (nonerr (items l') <= nonerr (items l) + 1)%nat /\ (length (after (cu l')) + 1 <= length (after (cu l)))%nat)
+  \/ (state l' = SDone /\ (length (items l') <= length (items l) + length (after (cu l)) + 1)%nat /\
+      (nonerr (items l') <= nonerr (items l))%nat).
+
+Lemma qstring_count fuel : forall l ind ql qc over tr,
+  qcount l (qstring_loop fuel l ind ql qc over tr) /\
+  ((length (items l) <= maxErrors)%nat -> (length (items (qstring_loop fuel l ind ql qc over tr)) <= maxErrors)%nat).
+Proof.
+  induction fuel as [|f IH]; intros l ind ql qc over tr; cbn [qstring_loop].
+  - split; [right; cbn [with_state state items]; split; [reflexivity|split; lia]|auto].
+  - destruct (next (cu l)) as [c k] eqn:Hn. destruct (next_after _ _ _ Hn) as [Hle Hlt].
+    set (l1 := with_cu l k).
+    assert (Step : forall l2 o t, (length (items l2) + length (after (cu l2)) <= length (items l) + length (after (cu l)))%nat ->
+                   (nonerr (items l2) <= nonerr (items l))%nat -> (length (after (cu l2)) <= length (after (cu l)))%nat ->
+                   ((length (items l) <= maxErrors)%nat -> (length (items l2) <= maxErrors)%nat) ->
+                   qcount l (qstring_loop f l2 ind ql qc o t) /\
+                   ((length (items l) <= maxErrors)%nat -> (length (items (qstring_loop f l2 ind ql qc o t)) <= maxErrors)%nat)).
+    { intros l2 o t H1 H2 H3 H4. destruct (IH l2 ind ql qc o t) as [Q C]. split; [|auto].
+      destruct Q as [(A & B & D & E & F)|(A & B & D)]; [left|right]; repeat split; auto; lia. }
+    destruct (c =? EOFR)%N eqn:E0.
+    { destruct (ErrorfAt_count l1 ql qc EMissingDQuote (Some (soff l1))) as ((G1 & G2 & G3 & _) & _ & _ & _).
+      split; [|intro H; apply G3; exact H].
+      right. cbn [with_state state items]. split; [reflexivity|]. change (items l1) with (items l) in *. split; lia. }
+    apply N.eqb_neq in E0. specialize (Hlt E0).
+    destruct (c =? cDQ)%N.
+    { destruct (emitText_grows l1 TString (rev tr)) as [(G1 & G2 & G3 & _) N].
+      split; [|intro H; apply G3; exact H].
+      left. cbn [with_state state items]. change (items l1) with (items l) in *.
+      split; [reflexivity|]. split; [exact N|].
+      change (after (cu (with_state (emitText l1 TString (rev tr)) SGround))) with (after k).
+      split; [lia|split; [exact G2|lia]]. }
+    destruct (c =? cLF)%N; [apply Step; cbn [l1 with_cu items cu]; auto; lia|].
+    destruct ((c =? cSP) || (c =? cTAB))%N; [destruct (negb over && _); apply Step; cbn [l1 with_cu items cu]; auto; lia|].
+    destruct (c =? cBSL)%N; [|apply Step; cbn [l1 with_cu items cu]; auto; lia].
+    destruct (next k) as [c2 k2] eqn:Hn2. destruct (next_after _ _ _ Hn2) as [Hle2 _].
+    set (l2 := with_cu l1 k2).
+    destruct (c2 =? c_n)%N; [apply Step; cbn [l2 l1 with_cu items cu]; auto; lia|].
+    destruct (c2 =? c_t)%N; [apply Step; cbn [l2 l1 with_cu items cu]; auto; lia|].
+    destruct (c2 =? cDQ)%N; [apply Step; cbn [l2 l1 with_cu items cu]; auto; lia|].
+    destruct (c2 =? cBSL)%N; [apply Step; cbn [l2 l1 with_cu items cu]; auto; lia|].
+    destruct (inPattern l2); [apply Step; cbn [l2 l1 with_cu items cu]; auto; lia|].
+    destruct (ErrorfAt_count l2 (line k) (col k - 1) EInvalidEscape (Some (Nat.pred (length (before k))))) as ((G1 & G2 & G3 & _) & _ & G5 & _).
+    change (items l2) with (items l) in *. change (after (cu l2)) with (after k2) in *.
+    apply Step; auto; lia.
+Qed.
+
+Lemma grows_refl l l' k : items l' = items l -> grows l l' k.
+Proof. intro E. unfold grows. rewrite E. repeat split; auto; lia. Qed.
+Lemma grows_weaken l l' : grows l l' 0 -> grows l l' 1.
+Proof. intros (A & B & C & D). repeat split; auto; lia. Qed.
+
+Lemma grows_emit l x c l' : items x = items l -> items l' = items (emit x c) -> grows l l' 1.
+Proof.
+  intros E1 E2. destruct (emitText_grows x c (rev (tokrev (cu x)))) as [(A & B & C & D) _]. fold (emit x c) in A, B, C, D.
+  unfold grows. rewrite E2, <- E1. repeat split; auto. destruct c; lia.
+Qed.
+Lemma grows_err l x a b c d l' : items x = items l -> items l' = items (ErrorfAt x a b c d) -> grows l l' 1.
+Proof.
+  intros E1 E2. destruct (ErrorfAt_count x a b c d) as ((A & B & C & D) & _).
+  unfold grows. rewrite E2, <- E1. repeat split; auto. lia.
+Qed.
+
+Lemma lexGround_grows l : grows l (lexGround l) 1.
+Proof.
+  unfold lexGround. cbv zeta. split_all;
+    first [ apply grows_refl; reflexivity
+          | match goal with |- grows _ ?t _ => match t with context [emit ?x ?c] => apply (grows_emit _ x c); reflexivity end end
+          | match goal with |- grows _ ?t _ => match t with context [ErrorfAt ?x ?a ?b ?c ?d] => apply (grows_err _ x a b c d); reflexivity end end ].
+Qed.
+
+Lemma unquoted_len s : (length (snd (unquoted s)) <= length s)%nat.
+Proof. induction s as [|c r IH]; [cbn; lia|]. cbn [unquoted]. destruct (ends_unquoted c); [cbn; lia|]. destruct (unquoted r). cbn [snd length] in *. lia. Qed.
+
+Definition tok_cost (t : token) : nat := if is_TError t then 0%nat else 1%nat.
+
+Lemma nonerr_cons t r : nonerr (t :: r) = (tok_cost t + nonerr r)%nat.
+Proof. unfold nonerr, tok_cost. cbn [filter]. destruct (is_TError t); reflexivity. Qed.
+
+(* popping the head of the queue *)
+Lemma pop_counts l t r : items l = t :: r -> QI l ->
+  QI (pop l r) /\ (nu (pop l r) + 1 = nu l)%nat /\ (nu2 (pop l r) + tok_cost t = nu2 l)%nat.
+Proof.
+  intros E (S & L & N). unfold QI, nu, nu2, lrest. cbn [pop items state cu]. rewrite E in *. rewrite nonerr_cons in *. cbn [length] in *.
+  repeat split; auto; lia.
+Qed.
+
+Definition nt_ok (l : lexer) (res : option (option token) * lexer) : Prop :=
+  exists r l', res = (Some r, l') /\ QI l' /\
+    match r with
+    | Some t => (nu l' + 1 <= nu l)%nat /\ (nu2 l' + tok_cost t <= nu2 l)%nat
+    | None => state l' = SDone /\ items l' = []
+    end.
+
+(* after the state functions have run from [l0] to [l1] without the totals growing, NextToken delivers *)
+Lemma deliver l0 l1 fuel : (state l1 = SGround \/ state l1 = SDone) -> (items l1 <> [] \/ state l1 = SDone) ->
+  (length (items l1) <= maxErrors)%nat -> (nonerr (items l1) <= 1)%nat -> (nu l1 <= nu l0)%nat -> (nu2 l1 <= nu2 l0)%nat ->
+  nt_ok l0 (NextToken fuel l1).
+Proof.
+  intros S N L1 L2 A B. destruct (items l1) as [|t r] eqn:E.
+  - destruct N as [N|N]; [contradiction|]. rewrite (NextToken_done _ _ E N). exists None, l1. split; [reflexivity|].
+    split; [split; [right; exact N|rewrite E; cbn; unfold maxErrors; split; lia]|split; assumption].
+  - rewrite (NextToken_pop _ _ _ _ E). assert (Q : QI l1) by (split; [exact S|rewrite E; split; assumption]).
+    destruct (pop_counts l1 t r E Q) as (Q' & C & D). exists (Some t), (pop l1 r). split; [reflexivity|]. split; [exact Q'|]. split; lia.
+Qed.
+
+Lemma NextToken_total text : ~ In EOFR text -> forall n s l fuel,
+  (length s <= n)%nat -> glex text l s -> (2 * length s + 4 <= fuel)%nat -> nt_ok l (NextToken fuel l).
+Proof.
+  intros NE. induction n as [|n IH]; intros s l fuel Hn G Hf.
+  all: pose proof (lexGround_sim text l s NE G) as GR.
+  all: pose proof (lexGround_grows l) as (Gr1 & Gr2 & Gr3 & _).
+  all: destruct G as (Hst & Hit & L & Ha).
+  all: assert (Hnu : nu l = (length s + 1)%nat) by (unfold nu; rewrite Hit, Hst, Ha; reflexivity).
+  all: assert (Hnu2 : nu2 l = length s) by (unfold nu2, lrest, nonerr; rewrite Hit, Hst, Ha; reflexivity).
+  all: rewrite Hit in Gr1, Gr2, Gr3; cbn [length] in Gr1, Gr3; change (nonerr []) with O in Gr2.
+  all: assert (Gr3' : (length (items (lexGround l)) <= maxErrors)%nat) by (apply Gr3; unfold maxErrors; lia).
+  all: destruct fuel as [|f]; [lia|].
+  all: rewrite (NextToken_run f l Hit ltac:(rewrite Hst; discriminate)).
+  all: unfold run_state; rewrite Hst.
+  all: pose proof (dropb_length s) as Hdl.
+  all: set (l1 := lexGround l) in *.
+  all: destruct (dropb s) as [|c r] eqn:Hd.
+  1,3: destruct GR as (SE & Hs1 & Hi1); apply deliver;
+       [right; exact Hs1|right; exact Hs1|rewrite Hi1; cbn; unfold maxErrors; lia|rewrite Hi1; cbn; lia
+       |rewrite Hnu; unfold nu; rewrite Hi1, Hs1; cbn; lia|rewrite Hnu2; unfold nu2, lrest; rewrite Hi1, Hs1; cbn; lia].
+  1: destruct s; [discriminate|cbn in Hn; lia].
+  cbn [length] in Hdl.
+  (* a lexer that stopped with an error *)
+  assert (Failed : failed l l1 -> nt_ok l (NextToken f l1)).
+  { intros (Hs1 & _). apply deliver; auto.
+    - rewrite Hnu; unfold nu. rewrite Hs1. lia.
+    - rewrite Hnu2; unfold nu2, lrest. rewrite Hs1. lia. }
+  assert (OneTok : forall cd u s', one_tok text l l1 cd u s' -> (length s' <= length r)%nat -> nt_ok l (NextToken f l1)).
+  { intros cd u s' (SE & Hs1 & (t & Hi1 & _) & L1 & A1) Hl. apply deliver; auto.
+    - left. rewrite Hi1. discriminate.
+    - rewrite Hnu; unfold nu. rewrite Hs1, A1, Hi1. cbn [length]. lia.
+    - rewrite Hnu2; unfold nu2, lrest. rewrite Hs1, A1. lia. }
+  assert (Hc_nb : blank c = false).
+  { assert (Q : dropb (dropb s) = dropb s).
+    { clear. induction s as [|x s IHs]; [reflexivity|]. cbn [dropb]. destruct (is_blank x) eqn:E; [exact IHs|]. cbn [dropb]. rewrite E. reflexivity. }
+    rewrite Hd in Q. cbn [dropb] in Q. rewrite blank_is_blank. destruct (is_blank c); [|reflexivity].
+    exfalso. pose proof (dropb_length r) as Q2. rewrite Q in Q2. cbn [length] in Q2. lia. }
+  assert (Unq : forall p s2, in_unq text l l1 p s2 -> (length (snd (unquoted s2)) + 1 <= length s)%nat -> nt_ok l (NextToken f l1)).
+  { intros p s2 (SE & Hs2 & Hi2 & L2 & A2 & T2) Hl. destruct f as [|f]; [lia|].
+    rewrite (NextToken_run f l1 Hi2 ltac:(rewrite Hs2; discriminate)). unfold run_state. rewrite Hs2. unfold lexUnquoted.
+    pose proof (unquoted_loop_sim text NE s2 (S (length (after (cu l1)))) l l1 p ltac:(rewrite A2; lia) SE Hi2 L2 A2 T2) as OT.
+    destruct (unquoted s2) as [u s'] eqn:Eu. cbn [snd] in Hl.
+    destruct OT as (_ & Hs3 & (t & Hi3 & _) & _ & A3). apply deliver; auto.
+    - left. rewrite Hi3. discriminate.
+    - rewrite Hi3. cbn. unfold maxErrors. lia.
+    - rewrite Hi3. rewrite nonerr_cons. unfold tok_cost. destruct (is_TError t); cbn; lia.
+    - rewrite Hnu; unfold nu. rewrite Hs3, A3, Hi3. cbn [length]. lia.
+    - rewrite Hnu2; unfold nu2, lrest. rewrite Hs3, A3, Hi3, nonerr_cons. unfold tok_cost. destruct (is_TError t); cbn; lia. }
+  unfold ground_result in GR.
+  destruct (punct c) eqn:Ep; [apply (OneTok _ _ _ GR); lia|].
+  destruct (c =? cSQ)%N eqn:E2.
+  { destruct (squoted r) as [[u s']|] eqn:Esq; [|apply Failed; exact GR].
+    apply (OneTok _ _ _ GR). rewrite squoted_index in Esq. destruct (index1 cSQ r); [|discriminate]. injection Esq as _ <-.
+    match goal with |- (length ?x <= _)%nat => assert (Q : (length x <= length r)%nat) by (destruct r; cbn [length]; [lia|rewrite skipn_length; lia]); exact Q end. }
+  destruct (c =? cDQ)%N eqn:E3.
+  { destruct GR as (SE & Hs1 & Hi1 & Z1 & X1 & A1 & _). destruct f as [|f]; [lia|].
+    rewrite (NextToken_run f l1 Hi1 ltac:(rewrite Hs1; discriminate)). unfold run_state. rewrite Hs1. unfold lexQString.
+    destruct (qstring_count (S (length (after (cu l1)))) l1 (tcol (cu l1)) (line (cu l1)) (col (cu l1) - 1) true []) as [Q C].
+    set (l2 := qstring_loop _ _ _ _ _ _ _) in *. unfold qcount in Q. rewrite Hi1, A1 in Q. rewrite Hi1 in C. cbn [length] in Q, C. change (nonerr []) with O in Q.
+    specialize (C ltac:(unfold maxErrors; lia)).
+    destruct Q as [(Qs & Qi & Qa & Qn & Ql)|(Qs & Qa & Qn)]; apply deliver; auto; try lia.
+    - rewrite Hnu; unfold nu. rewrite Qs. lia.
+    - rewrite Hnu2; unfold nu2, lrest. rewrite Qs. lia.
+    - rewrite Hnu; unfold nu. rewrite Qs. lia.
+    - rewrite Hnu2; unfold nu2, lrest. rewrite Qs. lia. }
+  assert (Eu : ends_unquoted c = false).
+  { unfold ends_unquoted, quote. rewrite Hc_nb, Ep, E2, E3. reflexivity. }
+  assert (Hunq_c : forall r0, (length (snd (unquoted r0)) <= length r0)%nat) by apply unquoted_len.
+  destruct (c =? cSLASH)%N eqn:E4.
+  { destruct r as [|d r']; [apply (Unq _ _ GR); cbn; lia|].
+    destruct (d =? cSLASH)%N.
+    { destruct (index1 cLF r') as [x|] eqn:Hi; [|apply Failed; exact GR].
+      destruct GR as (SE & Hs1 & Hi1 & L1 & A1).
+      assert (G1 : glex text l1 (skipn x r')) by (split; [exact Hs1|split; [exact Hi1|split; assumption]]).
+      assert (Hlen2 : (length (skipn x r') <= length r')%nat) by (rewrite skipn_length; lia).
+      cbn [length] in *.
+      destruct (IH (skipn x r') l1 f ltac:(lia) G1 ltac:(lia)) as (r0 & l' & E & Q & M).
+      exists r0, l'. split; [exact E|split; [exact Q|]].
+      assert (N1 : (nu l1 <= nu l)%nat) by (rewrite Hnu; unfold nu; rewrite Hs1, Hi1, A1; cbn [length]; lia).
+      assert (N2 : (nu2 l1 <= nu2 l)%nat) by (rewrite Hnu2; unfold nu2, lrest; rewrite Hs1, Hi1, A1; cbn; lia).
+      destruct r0; [split; lia|exact M]. }
+    destruct (d =? cSTAR)%N.
+    { destruct (find2 cSTAR cSLASH r') as [[p q]|] eqn:Hfd; [|apply Failed; exact GR].
+      destruct GR as (SE & Hs1 & Hi1 & L1 & A1).
+      assert (G1 : glex text l1 q) by (split; [exact Hs1|split; [exact Hi1|split; assumption]]).
+      pose proof (index2_find2 cSTAR cSLASH r') as F2. rewrite Hfd in F2. destruct F2 as [_ Er'].
+      assert (Hlen2 : (length q + 2 <= length r')%nat) by (rewrite Er', app_length; cbn [length]; lia).
+      cbn [length] in *.
+      destruct (IH q l1 f ltac:(lia) G1 ltac:(lia)) as (r0 & l' & E & Q & M).
+      exists r0, l'. split; [exact E|split; [exact Q|]].
+      assert (N1 : (nu l1 <= nu l)%nat) by (rewrite Hnu; unfold nu; rewrite Hs1, Hi1, A1; cbn [length]; lia).
+      assert (N2 : (nu2 l1 <= nu2 l)%nat) by (rewrite Hnu2; unfold nu2, lrest; rewrite Hs1, Hi1, A1; cbn; lia).
+      destruct r0; [split; lia|exact M]. }
+    apply (Unq _ _ GR). pose proof (Hunq_c (d :: r')). cbn [length] in *. lia. }
+  destruct (c =? cPLUS)%N eqn:E7.
+  { destruct r as [|d r']; [apply (Unq _ _ GR); cbn; lia|].
+    destruct (quote d); [apply (OneTok _ _ _ GR); lia|].
+    apply (Unq _ _ GR). pose proof (Hunq_c (d :: r')). cbn [length] in *. lia. }
+  apply (Unq _ _ GR). cbn [unquoted]. rewrite Eu. pose proof (Hunq_c r). destruct (unquoted r). cbn [snd] in *. lia.
+Qed.
